@@ -361,14 +361,33 @@ Return == /\ Cur.op = "return_stmt"
 (* the parameters of an activation are definitions of their parameter_decl rows *)
 ParamDefs(m, bound, hp) == LET ps == Params(m) IN
   UNION {IF ps[j].name \in DOMAIN bound /\ bound[ps[j].name].t # "undef" THEN Def(ps[j].id, ps[j].name, bound[ps[j].name], hp) ELSE {} : j \in 1..Len(ps)}
-Enter(m, lexser, bound, target, self) ==
+(* packed parameters (python **kwargs / *args, at the end of the parameter list): the named arguments that match no declared parameter are
+   collected in a fresh record, the surplus positional arguments in a fresh tuple *)
+IsPackedNamed(p) == "%packed_named_pmt" \in ToSet(p.attrs)
+IsPackedPos(p)   == "%packed_pos_pmt" \in ToSet(p.attrs)
+Enter(m, lexser, bound0, target, self) ==
   LET ser == nser
       callerAdv == WithKont(AdvK(Kont))
+      ps == Params(m)
+      plain == SelectSeq(ps, LAMBDA p : ~IsPackedNamed(p) /\ ~IsPackedPos(p))
+      pn == SelectSeq(ps, IsPackedNamed)
+      pp == SelectSeq(ps, IsPackedPos)
+      pos == Cur.pos_toks
+      named == Cur.named_toks
+      extraNamed == SelectSeq(named, LAMBDA x : \A j \in 1..Len(plain) : plain[j].name # x.name)
+      extraPos == IF Len(pos) > Len(plain) THEN SubSeq(pos, Len(plain) + 1, Len(pos)) ELSE << >>
+      rec == [Obj("record", 0, Cur.id) EXCEPT !.fields = [k \in {KeyOf(VStr(extraNamed[j].name)) : j \in 1..Len(extraNamed)} |->
+                                                           Val(extraNamed[CHOOSE j \in 1..Len(extraNamed) : KeyOf(VStr(extraNamed[j].name)) = k].tok)]]
+      tup == [Obj("tuple", 0, Cur.id) EXCEPT !.elems = [j \in 1..Len(extraPos) |-> Val(extraPos[j])]]
+      hp1 == IF pn # << >> THEN Append(heap, rec) ELSE heap
+      hp2 == IF pp # << >> THEN Append(hp1, tup) ELSE hp1
+      bound == (IF pn # << >> THEN (pn[1].name :> VRef(Len(hp1))) ELSE << >>) @@ (IF pp # << >> THEN (pp[1].name :> VRef(Len(hp2))) ELSE << >>) @@ bound0
   IN /\ stack' = Append(callerAdv, AtSite(NewAct(m, bound, lexser, target, self, ser), Cur.id))
      /\ envs' = (ser :> EnvFor(bound, lexser, self)) @@ envs
+     /\ heap' = hp2
      /\ calls' = calls \cup {<<Act.m, Cur.id, m>>}
-     /\ defs' = defs \cup ParamDefs(m, bound, heap)
-     /\ nser' = nser + 1 /\ steps' = steps + 1 /\ UNCHANGED <<c, heap, out, status, sinks>>
+     /\ defs' = defs \cup ParamDefs(m, bound, hp2)
+     /\ nser' = nser + 1 /\ steps' = steps + 1 /\ UNCHANGED <<c, out, status, sinks>>
 
 CallValue(f, pos, named, target) ==
   CASE f.t = "fun" -> Enter(f.i, f.env, BindArgs(f.i, pos, named), target, VNone)
